@@ -93,7 +93,7 @@ def judge(chk, c, q):
     feats = sorted(features(lib))
     desc = {"gds": brief(lib), "features": feats}
     oc = q.get("outcome")
-    if oc in ("panic", "abort", "timeout"):
+    if oc in ("panic", "abort", "timeout", "not-run"):
         why = "malformed:" if c["must_err"] else ""
         chk.violation(f"import-{oc}:{why}{'+'.join(feats)}", "GdsImporter", desc, {"msg": q.get("msg"), "loc": q.get("loc")})
         return
@@ -157,7 +157,7 @@ def big_array_cases():
 def judge_big(chk, b, q):
     desc = {"array": b["id"]}
     oc = q.get("outcome")
-    if oc in ("panic", "abort", "timeout"):
+    if oc in ("panic", "abort", "timeout", "not-run"):
         chk.violation(f"import-{oc}:big-aref", "GdsImporter::import_instance_array", desc, {"msg": q.get("msg"), "loc": q.get("loc")})
         return
     if oc == "err":
